@@ -45,7 +45,7 @@ META = {
                     'after a crash a file holds the old content, the new content or an unloadable prefix (the '
                     'SimFS flushes what was written before the kill)'],
     'probe_names': ['crash_between_truncate_and_write', 'crash_mid_write', 'crash_in_readback', 'crash_in_render',
-                    'crash_before_paux', 'loads_to_nondict', 'dict_without_renderer', 'edited_owner',
+                    'crash_before_paux', 'crash_after_save', 'loads_to_nondict', 'dict_without_renderer', 'edited_owner',
                     'healed_after_fault', 'cross_ref_resolved', 'other_block_preserved', 'xr_reader_used',
                     'corrupt_file_read', 'save_failed_run_continued', 'ioerr_open_r', 'ioerr_write', 'ioerr_open_w'],
     'shrink_budget': 60,
@@ -165,7 +165,7 @@ def generate(seed, tier):
             continue
         kind = ro.choice(enabled)
         if kind == 'crash':
-            win = rf.choice(['paux', 'paux', 'paux', 'render', 'any', 'early'])
+            win = rf.choice(['paux', 'paux', 'paux', 'render', 'any', 'early', 'late'])
             ops.append({'op': 'RUN', 'doc': ro.randrange(8), 'r': ro.randrange(2),
                         'crash': {'window': win, 'k': rf.randrange(1000), 'tear': rf.choice([0, 1, -1, -2, rf.randrange(4096), rf.randrange(64)])}})
         elif kind == 'ioerr':
@@ -660,12 +660,14 @@ class Sim(object):
         render = [e for e in log if marks.get('render', 0) <= e[0] < marks.get('persist', len(log))]
         early = [e for e in log if e[0] < marks.get('render', 0)]
         restore = [e for e in early if e[1] == 'open-r' and str(e[2]).endswith('.paux')]
-        win = {'paux': paux, 'render': render, 'any': log, 'early': early, 'restore': restore}.get(plan['window']) or log
+        late = [e for e in log if paux and e[0] > max(x[0] for x in paux)]
+        win = {'paux': paux, 'render': render, 'any': log, 'early': early, 'restore': restore, 'late': late}.get(plan['window']) or log
         ev = win[plan['k'] % len(win)]
         tear = plan.get('tear', 0)
         self._ckind = ev[1]
         self._cpath = ev[2]
-        self._cwin = 'paux' if ev in paux else ('render' if ev in render else 'early')
+        last_paux = max([e[0] for e in paux] or [len(log)])
+        self._cwin = 'paux' if ev in paux else ('render' if ev in render else ('late' if ev[0] > last_paux else 'early'))
         if ev[1] == 'write':
             ln = ev[3] or 0
             if tear < 0:
@@ -684,6 +686,17 @@ class Sim(object):
             self.info['crash_before_paux'] = 1
         elif win == 'render':
             self.info['crash_in_render'] = 1
+        if win == 'late':
+            # killed after the save had completed (e.g. at the final chdir): the file holds the new content
+            self.info['crash_after_save'] = 1
+            saved = self._dry['result']['saved'] or {}
+            blockR = dict((k, (v['ref'], v['title'], v['url'])) for k, v in saved.items())
+            fm.update(cands=[dict(c, **{R: blockR}) for c in fm['cands']] + ([{R: blockR}] if fm['state'] != 'clean' else []))
+            if fm['state'] == 'clean':
+                fm['cands'] = fm['cands'][:1]
+            else:
+                fm['state'] = 'dirty'
+            return
         if win != 'paux':
             return                                  # the saved file was not touched
         new = self.expected_new(name, R, self._dry)
